@@ -279,6 +279,17 @@ Definition handle_headers (is_client : bool) (st : sstate) (hs : list header) (e
       if ended then check_content_length st1 k else k)
   end.
 
+Definition H3_FRAME_ERROR_code : Z := 262.
+Definition is_none {A} (o : option A) : bool := match o with None => true | Some _ => false end.
+
+(* "a stream must not end in the middle of a frame (RFC 9114, section 7.1)": after the frame loop, on the event that
+   carries the FIN; an error raised inside the loop wins *)
+Definition truncated_check {A} (fin : bool) (rem : option Z) (r : vres A) : vres A :=
+  match r with
+  | VOk x => if fin && negb (is_none rem) then PErr H3_FRAME_ERROR_code else VOk x
+  | e => e
+  end.
+
 Definition set_remaining (st : sstate) (r : option Z) : sstate :=
   mkS (s_hstate st) (s_ecl st) (s_cl st) r (s_ended st).
 Definition set_ended (st : sstate) (fin : bool) : sstate :=
@@ -298,29 +309,32 @@ Definition stream_step (is_client : bool) (st : sstate) (op : sop) : vres (list 
       match s_remaining st with
       | Some _ => Exn 0
       | None =>
-          (* main loop: frame header read, chunk_size = min(size, avail) = avail *)
-          let st1 := set_remaining st (if size - avail =? 0 then None else Some (size - avail)) in
-          handle_data st1 avail (s_ended st)
+          (* main loop: frame header read, chunk_size = min(size, avail) = avail; the handler sees the end of the
+             stream only when the frame is complete; a FIN inside the frame is H3_FRAME_ERROR (fix 802f530) *)
+          let rem := if size - avail <=? 0 then None else Some (size - avail) in
+          truncated_check fin rem (handle_data (set_remaining st rem) avail (s_ended st && is_none rem))
       end
   | ODataCont avail fin =>
       let st := set_ended st fin in
       match s_remaining st with
       | None => Exn 0
       | Some r =>
-          if avail <? r then
-            (* shortcut for DATA frame fragments: FIN is not looked at *)
+          if (avail <? r) && negb fin then
+            (* shortcut for DATA frame fragments (not taken on the event that carries the FIN) *)
             VOk ([EData avail false],
                  mkS (s_hstate st) (s_ecl st) (s_cl st + avail) (Some (r - avail)) (s_ended st))
+          else if avail =? 0 then
+            PErr H3_FRAME_ERROR_code      (* FIN with nothing buffered while a frame is open: the loop does not run *)
           else
-            let st1 := set_remaining st None in
-            handle_data st1 avail (s_ended st)
+            let rem := if r - avail <=? 0 then None else Some (r - avail) in
+            truncated_check fin rem (handle_data (set_remaining st rem) avail (s_ended st && is_none rem))
       end
   | OFin =>
       let st := set_ended st true in
       match s_remaining st with
       | Some r =>
-          (* 0 < r: the fragment shortcut emits an empty, non-final DataReceived *)
-          VOk ([EData 0 false], st)
+          (* neither shortcut applies to an event carrying the FIN; the loop does not run; truncated frame *)
+          PErr H3_FRAME_ERROR_code
       | None =>
           (* lone FIN *)
           check_content_length st (VOk ([EData 0 true], st))
